@@ -539,8 +539,10 @@ impl Story {
                         // Non-empty source list
                         else {
                             // Generate a random index for the element to take
-                            let result_seed =
-                                self.get_state().story_seed + self.get_state().previous_random;
+                            let result_seed = self
+                                .get_state()
+                                .story_seed
+                                .wrapping_add(self.get_state().previous_random);
                             let mut rng = StdRng::seed_from_u64(result_seed as u64);
                             let next_random = rng.random::<u32>();
                             let list_item_index = (next_random as usize) % list.items.len(); // Iterate through to get the random element, sorted for
